@@ -352,7 +352,7 @@ def _run(ctx, quick, flavs, pool):
     #    single-call model and the model of two consecutive calls are emitted side by side
     from concurrent.futures import ThreadPoolExecutor
     emit_cfg = _cfg("MC_UpdateFile_emit_quick.cfg" if quick else "MC_UpdateFile_emit.cfg", FlavourSets=tla_set(flavs),
-                    FlavourPhase=str(ctx.seed % 3) if quick else "9")
+                    FlavourPhase=str(ctx.seed % 3))   # one flavour set per input, rotating (all three: MC_UpdateFile.cfg)
     def neg(mode, inv):
         if mode == "RememberIndex":
             cfg = _cfg("MC_UpdateFile_runs.cfg", RememberIndex="TRUE", Emit="FALSE")
@@ -402,7 +402,7 @@ def _run2(ctx, quick, flavs, pool, phase, t0, f1, f2, f_main, f_live, f_neg):
         elif nvar == 1:  # many behaviours (all hash flavours): sampled once, every fifth also in plainest form
             vs = ["random0"] + (["canonical"] if idx % 5 == 0 else [])
         else:
-            vs = ["canonical"] + ["random%d" % j for j in range(nvar)]
+            vs = ["random0", "random1"] + (["canonical"] if idx % 3 == 0 else [])
         f = c["in"]["fault"]
         if f["k"] == "writeFails" and 1 <= f["i"] <= c["in"]["nw"]:
             vs.append("rlimit")
